@@ -487,6 +487,8 @@ def explore(unit, max_paths=20000):
         try:
             out = unit(ctx)
         except Infeasible:
+            # the siblings forked on this path before it turned out infeasible are still to be explored
+            work.extend(ctx.new_branches)
             continue
         done.append((ctx, out))
         work.extend(ctx.new_branches)
